@@ -1,6 +1,7 @@
 import Poly.Util.Proto
 import Poly.Model.VBFT
 import Poly.Model.Sig
+import Poly.Model.VBFTCount
 /- Driver for the node-layer families. `drv_node <family>` reads op lines on stdin.
 
    family vbftsel (C40):
@@ -162,8 +163,154 @@ def step (_ : Unit) (toks : List String) : Unit × String :=
 
 end SigsDrv
 
+namespace VbftCntDrv
+open Poly.Model.VBFTCount
+
+/- family vbftcnt (C41): one block pool; state = candidate records per block number.
+   init <self> <C> <N> <endorsers> <peers idx:id,..> <connected> <isEndorser verdicts>   -> ok
+   prop <blk> <proposer> <sig>                                       -> ok | dup
+   end <blk> <endorser> <proposer> <forEmpty> <sig>                  -> ok
+   commit <blk> <committer> <proposer> <hash> <forEmpty> <committerSig> <e:sig,..>   -> ok | dup
+   dump <blk>                    -> esigs=<e>:<p>/<sig>/<0|1>+...;... props=<p>/<sig>,.. commits=<committer>/<p>,..
+   edone <blk> <C>               -> done=<0|1>
+   edcheck <blk> <C> <p> <e>     -> possible | impossible    (is (p, e) the answer of endorseDone for some map order?)
+   cdone <blk> <C> <N>           -> msgs p=<p> e=<0|1> | fallback done=<0|1>
+   cdcheck <blk> <C> <N> <p> <e> -> possible | impossible
+   gcc <C> <N> <committer:proposer:forEmpty:e1+e2..> ...   -> p=<p> e=<0|1> | none
+   seal <blk> <proposer> <forEmpty> <proposerSig>   -> first=<p>/<sig> rest=<e>/<sig>,.. (sorted by participant) -/
+
+structure St where
+  isEnd : List Nat := []
+  hasKey : List Nat := []
+  cands : List (Nat × Cand) := []
+
+def getCand (s : St) (blk : Nat) : Cand :=
+  match s.cands.find? (·.1 == blk) with
+  | some x => x.2
+  | none => {}
+
+def hasCand (s : St) (blk : Nat) : Bool := s.cands.any (·.1 == blk)
+
+def putCand (s : St) (blk : Nat) (c : Cand) : St :=
+  if s.cands.any (·.1 == blk) then { s with cands := s.cands.map fun x => if x.1 == blk then (blk, c) else x }
+  else { s with cands := s.cands ++ [(blk, c)] }
+
+def splitList (s : String) : List String := if s == "-" then [] else s.splitOn ","
+def natList (s : String) : List Nat := (splitList s).map Proto.natOf
+def b01 (b : Bool) : String := if b then "1" else "0"
+
+def insNat (a : Nat) : List Nat → List Nat
+  | [] => [a]
+  | b :: r => if a ≤ b then a :: b :: r else b :: insNat a r
+def sortNat (l : List Nat) : List Nat := l.foldr insNat []
+
+def insPair {α : Type} (a : Nat × α) : List (Nat × α) → List (Nat × α)
+  | [] => [a]
+  | b :: r => if a.1 ≤ b.1 then a :: b :: r else b :: insPair a r
+def sortPairs {α : Type} (l : List (Nat × α)) : List (Nat × α) := l.foldr insPair []
+
+def showESig (s : ESig) : String := s!"{s.proposer}/{Hex.showHex s.sig}/{b01 s.forEmpty}"
+
+def dump (c : Cand) : String :=
+  let es := (sortPairs c.esigs).map fun (e, l) => s!"{e}:" ++ "+".intercalate (l.map showESig)
+  let ps := c.proposals.map fun p => s!"{p.proposer}/{Hex.showHex p.sig}"
+  let cs := c.commitMsgs.map fun m => s!"{m.committer}/{m.proposer}"
+  let j (l : List String) := if l.isEmpty then "-" else ";".intercalate l
+  s!"esigs={j es} props={j ps} commits={j cs}"
+
+def parseEndorsersSig (s : String) : List (Nat × Bytes) :=
+  (splitList s).map fun t =>
+    match t.splitOn ":" with
+    | [e, sg] => (Proto.natOf e, Proto.bytesOf sg)
+    | _ => (0, [])
+
+/-- all permutations (used for at most 6 endorsers) -/
+def insertEverywhere (x : Nat) : List Nat → List (List Nat)
+  | [] => [[x]]
+  | y :: r => (x :: y :: r) :: (insertEverywhere x r).map (y :: ·)
+def perms : List Nat → List (List Nat)
+  | [] => [[]]
+  | x :: r => (perms r).flatMap (insertEverywhere x)
+
+def rotations (l : List Nat) : List (List Nat) := (List.range l.length).map fun i => l.drop i ++ l.take i
+
+/-- candidate iteration orders: everything for small maps, otherwise the endorsers supporting `p` first / last,
+    in all rotations -/
+def orders (c : Cand) (p : Nat) (forEmpty : Bool) : List (List Nat) :=
+  let keys := sortNat (c.esigs.map (·.1))
+  if keys.length ≤ 6 then perms keys
+  else
+    let sup := keys.filter fun e => ((lookup c.esigs e).getD []).any fun s => if forEmpty then s.forEmpty else (!s.forEmpty && s.proposer == p)
+    let rest := keys.filter fun e => !sup.contains e
+    (rotations sup).flatMap fun a => (rotations rest).flatMap fun b => [a ++ b, a.reverse ++ b, b ++ a]
+
+def parseGccMsg (t : String) : CommitMsg :=
+  match t.splitOn ":" with
+  | [c, p, e, es] =>
+    { committer := Proto.natOf c, proposer := Proto.natOf p, hash := [], forEmpty := e == "1",
+      endorsersSig := (if es == "-" then [] else (es.splitOn "+")).map fun x => (Proto.natOf x, []), committerSig := [] }
+  | _ => { committer := 0, proposer := 0, hash := [], forEmpty := false, endorsersSig := [], committerSig := [] }
+
+def step (s : St) (toks : List String) : St × String :=
+  match toks with
+  | ["init", _self, _c, _n, _endorsers, peers, _connected, isend] =>
+    ({ isEnd := natList isend, hasKey := (splitList peers).map fun t => Proto.natOf ((t.splitOn ":").headD "0"), cands := [] }, "ok")
+  | ["prop", blk, proposer, sig] =>
+    let b := Proto.natOf blk
+    let (c, r) := newBlockProposal (getCand s b) ⟨Proto.natOf proposer, Proto.bytesOf sig⟩
+    (putCand s b c, if r == .ok then "ok" else "dup")
+  | ["end", blk, endorser, proposer, fe, sig] =>
+    let b := Proto.natOf blk
+    (putCand s b (newBlockEndorsement (getCand s b) (Proto.natOf endorser) ⟨Proto.natOf proposer, Proto.bytesOf sig, fe == "1"⟩), "ok")
+  | ["commit", blk, committer, proposer, hash, fe, csig, esigs] =>
+    let b := Proto.natOf blk
+    let (c, r) := newBlockCommitment (getCand s b)
+      { committer := Proto.natOf committer, proposer := Proto.natOf proposer, hash := Proto.bytesOf hash, forEmpty := fe == "1",
+        endorsersSig := parseEndorsersSig esigs, committerSig := Proto.bytesOf csig }
+    (putCand s b c, if r == .ok then "ok" else "dup")
+  | ["dump", blk] =>
+    let b := Proto.natOf blk
+    if hasCand s b then (s, dump (getCand s b)) else (s, "none")
+  | ["edone", blk, c] =>
+    let cand := getCand s (Proto.natOf blk)
+    let order := sortNat (cand.esigs.map (·.1))
+    (s, "done=" ++ b01 (endorseDone cand order (Proto.natOf c)).isSome)
+  | ["edcheck", blk, c, p, e] =>
+    let cand := getCand s (Proto.natOf blk)
+    let want := some (Proto.natOf p, e == "1")
+    (s, if (orders cand (Proto.natOf p) (e == "1")).any (fun o => endorseDone cand o (Proto.natOf c) == want) then "possible" else "impossible")
+  | ["cdone", blk, c, n] =>
+    let cand := getCand s (Proto.natOf blk)
+    if !hasCand s (Proto.natOf blk) then (s, "none") else
+    match getCommitConsensus cand.commitMsgs (Proto.natOf c) (Proto.natOf n) with
+    | some (p, e) => (s, s!"msgs p={p} e={b01 e}")
+    | none =>
+      let order := sortNat (cand.esigs.map (·.1))
+      (s, "fallback done=" ++ b01 (commitDone cand order (fun x => s.isEnd.contains x) (Proto.natOf c) (Proto.natOf n)).isSome)
+  | ["cdcheck", blk, c, n, p, e] =>
+    let cand := getCand s (Proto.natOf blk)
+    let want := some (Proto.natOf p, e == "1")
+    let os := orders cand (Proto.natOf p) false ++ (if cand.esigs.length ≤ 6 then [] else orders cand (Proto.natOf p) true)
+    (s, if os.any (fun o => commitDone cand o (fun x => s.isEnd.contains x) (Proto.natOf c) (Proto.natOf n) == want) then "possible" else "impossible")
+  | "gcc" :: c :: n :: msgs =>
+    match getCommitConsensus (msgs.map parseGccMsg) (Proto.natOf c) (Proto.natOf n) with
+    | some (p, e) => (s, s!"p={p} e={b01 e}")
+    | none => (s, "none")
+  | ["seal", blk, proposer, fe, psig] =>
+    let cand := getCand s (Proto.natOf blk)
+    let order := sortNat (cand.esigs.map (·.1))
+    match sealSignatures cand.esigs order (fun x => s.hasKey.contains x) (Proto.natOf proposer) (Proto.bytesOf psig) (fe == "1") with
+    | (p, sg) :: rest =>
+      let rs := rest.map fun (e, x) => s!"{e}/{Hex.showHex x}"
+      (s, s!"first={p}/{Hex.showHex sg} rest=" ++ (if rs.isEmpty then "-" else ",".intercalate rs))
+    | [] => (s, "bad")
+  | _ => (s, "bad-op")
+
+end VbftCntDrv
+
 def main (args : List String) : IO Unit :=
   match args with
   | ["vbftsel"] => Proto.run () VbftSelDrv.step
   | ["sigs"] => Proto.run () SigsDrv.step
+  | ["vbftcnt"] => Proto.run ({} : VbftCntDrv.St) VbftCntDrv.step
   | _ => IO.eprintln "usage: drv_node <family>"
